@@ -26,11 +26,21 @@ def s16(b, o):
     return Ite(v >= 32768, v - 65536, v)
 
 
+class _Cfg(dict):
+    def __missing__(self, k):
+        # every option at "off / default"; in particular the HarfBuzz repacker is not used (python3-vt has no uharfbuzz)
+        return False
+
+
 class _Font:
     lazy = False
+    cfg = _Cfg()
 
     def __init__(self, order):
         self.order = list(order)
+
+    def __contains__(self, tag):
+        return False
 
     def getGlyphID(self, name):
         return self.order.index(name)
@@ -49,12 +59,22 @@ class _Font:
 
 
 class _Patched:
-    PATCH = (("fontTools.ttLib.tables.otBase", ("struct", "array", "bytesjoin")),
+    PATCH = (("fontTools.ttLib.tables.otBase", ("struct", "array", "bytesjoin", "Tag")),
              ("fontTools.ttLib.tables.otConverters", ("struct", "bytesjoin")))
 
     def setup(self):
         import importlib
-        models = std("struct", "array", "bytesjoin")
+        from fontTools.misc.textTools import Tag as _RealTag
+
+        def Tag(x):
+            # tags are always concrete bytes, even when they are sliced out of a byte string that
+            # has symbolic bytes elsewhere
+            if isinstance(x, SymBytes):
+                c = x.concrete()
+                if c is not None:
+                    x = c
+            return _RealTag(x)
+        models = dict(std("struct", "array", "bytesjoin"), Tag=Tag)
         self._saved = []
         for modname, names in self.PATCH:
             m = importlib.import_module(modname)
@@ -298,4 +318,209 @@ class GenericTableRoundTrip(_Patched, Contract):
     ensures = [
         prop("bytes-read-at-the-prescribed-offsets-give-the-fields", lambda a, old, r: And(r[2], GenericTableRoundTrip._layout(a, r))),
         prop("decompile-gives-the-same-table-back", lambda a, old, r: GenericTableRoundTrip._same(a, r)),
+    ]
+
+
+# -- whole tables: object model -> bytes -> object model --------------------------------------------------
+
+def _deep_eq(x, y, path="", depth=0):
+    """list of spec clauses stating that two object models are equal (numbers by value)"""
+    from fontTools.ttLib.tables.otBase import BaseTable, ValueRecord
+    if depth > 30:
+        return [False]
+    if isinstance(x, (BaseTable, ValueRecord)) or isinstance(y, (BaseTable, ValueRecord)):
+        if type(x) is not type(y):
+            return [False]
+        skip = ("reader", "font", "tableTag")
+        dx = {k: v for k, v in vars(x).items() if k not in skip and not k.endswith("Count") and v is not None}
+        dy = {k: v for k, v in vars(y).items() if k not in skip and not k.endswith("Count") and v is not None}
+        if sorted(dx) != sorted(dy):
+            return [False]
+        out = []
+        for k in dx:
+            out += _deep_eq(dx[k], dy[k], path + "." + k, depth + 1)
+        return out
+    if isinstance(x, (list, tuple)) and isinstance(y, (list, tuple)):
+        if len(x) != len(y):
+            return [False]
+        out = []
+        for i, (p, q) in enumerate(zip(x, y)):
+            out += _deep_eq(p, q, "%s[%d]" % (path, i), depth + 1)
+        return out
+    if isinstance(x, dict) and isinstance(y, dict):
+        if sorted(x, key=repr) != sorted(y, key=repr):
+            return [False]
+        out = []
+        for k in x:
+            out += _deep_eq(x[k], y[k], "%s[%r]" % (path, k), depth + 1)
+        return out
+    if isinstance(x, str) or isinstance(y, str) or x is None or y is None:
+        return [x == y]
+    return [eq(x, y)]
+
+
+WHOLE = ("gpos-kern-classes", "gpos-mark-base", "gdef", "gsub-mixed")
+
+
+@contract
+class WholeTableRoundTrip(_Patched, Contract):
+    """Complete GPOS / GDEF / GSUB tables built in memory (script and feature lists, lookups with
+    class-based kerning, mark-to-base attachment, ligature carets, single / multiple / ligature
+    substitution) with every numeric value symbolic: the table compiled by the real machinery and
+    decompiled again is the same object model - field by field, recursively - and compiling the
+    decompiled table gives the same bytes (second-generation fixed point)."""
+    module = "fontTools.ttLib.tables.otBase"
+    qualname = "BaseTTXConverter.compile"
+    props = ("C01", "C02", "C06")
+    shadow_mode = "real"
+    variants = WHOLE
+    level = "PF"
+    max_paths = 20000
+    deadline_s = 300
+
+    def args(self, S, variant):
+        from fontTools.ttLib.tables import otTables as ot
+        from fontTools.ttLib import newTable
+        font = _Font([".notdef", "A", "B", "C", "D", "E"])
+        i16 = lambda n: S.int(n, -32768, 32767)
+
+        def scripts_features(table, tags, nlookups):
+            table.ScriptList = ot.ScriptList()
+            sr = ot.ScriptRecord()
+            sr.ScriptTag = "DFLT"
+            sr.Script = ot.Script()
+            sr.Script.DefaultLangSys = ot.DefaultLangSys()
+            sr.Script.DefaultLangSys.ReqFeatureIndex = 0xFFFF
+            sr.Script.DefaultLangSys.FeatureIndex = list(range(len(tags)))
+            sr.Script.DefaultLangSys.LookupOrder = None
+            sr.Script.LangSysRecord = []
+            table.ScriptList.ScriptRecord = [sr]
+            table.FeatureList = ot.FeatureList()
+            table.FeatureList.FeatureRecord = []
+            for i, tag in enumerate(tags):
+                fr = ot.FeatureRecord()
+                fr.FeatureTag = tag
+                fr.Feature = ot.Feature()
+                fr.Feature.FeatureParams = None
+                fr.Feature.LookupListIndex = [i % nlookups]
+                table.FeatureList.FeatureRecord.append(fr)
+
+        def anchor(tag):
+            a = ot.Anchor()
+            a.Format = 1
+            a.XCoordinate, a.YCoordinate = i16(tag + "x"), i16(tag + "y")
+            return a
+
+        if variant == "gdef":
+            t = ot.GDEF()
+            t.Version = 0x00010000
+            t.GlyphClassDef = ot.GlyphClassDef()
+            t.GlyphClassDef.classDefs = {g: S.int("gclass_" + g, 1, 4) for g in ("A", "C", "D")}
+            t.AttachList = None
+            t.MarkAttachClassDef = None
+            t.LigCaretList = ot.LigCaretList()
+            t.LigCaretList.Coverage = ot.Coverage()
+            t.LigCaretList.Coverage.glyphs = ["B", "E"]
+            t.LigCaretList.LigGlyph = []
+            for g, n in (("B", 2), ("E", 1)):
+                lg = ot.LigGlyph()
+                lg.CaretValue = []
+                for k in range(n):
+                    cv = ot.CaretValue()
+                    cv.Format = 1
+                    cv.Coordinate = i16("caret_%s%d" % (g, k))
+                    lg.CaretValue.append(cv)
+                t.LigCaretList.LigGlyph.append(lg)
+            tag = "GDEF"
+        elif variant.startswith("gpos"):
+            t = ot.GPOS()
+            t.Version = 0x00010000
+            scripts_features(t, ["kern"] if "kern" in variant else ["mark"], 1)
+            lk = ot.Lookup()
+            lk.LookupFlag = 0
+            if "kern" in variant:
+                lk.LookupType = 2
+                st = ot.PairPos()
+                st.Format = 2
+                st.Coverage = ot.Coverage()
+                st.Coverage.glyphs = ["A", "B", "C"]
+                st.ValueFormat1, st.ValueFormat2 = 4, 0
+                st.ClassDef1 = ot.ClassDef()
+                st.ClassDef1.classDefs = {"B": 1}
+                st.ClassDef2 = ot.ClassDef()
+                st.ClassDef2.classDefs = {"D": 1, "E": S.int("class2_E", 1, 2)}
+                st.Class1Record = []
+                for c1 in range(2):
+                    r1 = ot.Class1Record()
+                    r1.Class2Record = []
+                    for c2 in range(3):
+                        r2 = ot.Class2Record()
+                        r2.Value1 = ot.ValueRecord()
+                        r2.Value1.XAdvance = i16("k%d%d" % (c1, c2))
+                        r2.Value2 = None
+                        r1.Class2Record.append(r2)
+                    st.Class1Record.append(r1)
+            else:
+                lk.LookupType = 4
+                st = ot.MarkBasePos()
+                st.Format = 1
+                st.MarkCoverage = ot.Coverage()
+                # three anchors with symbolic coordinates: subtable sharing decides, per pair, whether
+                # they are equal (5 partitions); more anchors make the number of sharing patterns explode
+                st.MarkCoverage.glyphs = ["D"]
+                st.BaseCoverage = ot.Coverage()
+                st.BaseCoverage.glyphs = ["A", "B"]
+                st.ClassCount = 1
+                st.MarkArray = ot.MarkArray()
+                st.MarkArray.MarkRecord = []
+                for i, g in enumerate(("D",)):
+                    mr = ot.MarkRecord()
+                    mr.Class = i
+                    mr.MarkAnchor = anchor("mark" + g)
+                    st.MarkArray.MarkRecord.append(mr)
+                st.BaseArray = ot.BaseArray()
+                st.BaseArray.BaseRecord = []
+                for g in ("A", "B"):
+                    br = ot.BaseRecord()
+                    br.BaseAnchor = [anchor("base%s%d" % (g, k)) for k in range(1)]
+                    st.BaseArray.BaseRecord.append(br)
+            lk.SubTable = [st]
+            t.LookupList = ot.LookupList()
+            t.LookupList.Lookup = [lk]
+            tag = "GPOS"
+        else:
+            t = ot.GSUB()
+            t.Version = 0x00010000
+            scripts_features(t, ["liga", "ccmp", "salt"], 3)
+            lookups = []
+            lk = ot.Lookup(); lk.LookupType, lk.LookupFlag = 4, 0
+            st = ot.LigatureSubst()
+            lig = ot.Ligature(); lig.Component, lig.LigGlyph = ["B"], "E"
+            st.ligatures = {"A": [lig]}
+            lk.SubTable = [st]; lookups.append(lk)
+            lk = ot.Lookup(); lk.LookupType, lk.LookupFlag = 2, S.int("flag", 0, 15)
+            st = ot.MultipleSubst(); st.mapping = {"E": ["A", "B"], "C": ["D"]}
+            lk.SubTable = [st]; lookups.append(lk)
+            lk = ot.Lookup(); lk.LookupType, lk.LookupFlag = 1, 0
+            st = ot.SingleSubst(); st.mapping = {"A": "B", "C": "E"}
+            lk.SubTable = [st]; lookups.append(lk)
+            t.LookupList = ot.LookupList()
+            t.LookupList.Lookup = lookups
+            tag = "GSUB"
+        holder = newTable(tag)
+        holder.table = t
+        return dict(self=holder, font=font, _tag=tag)
+
+    def call(self, f, a):
+        from fontTools.ttLib import newTable
+        data = f(a.self, a.font)
+        back = newTable(a._tag)
+        back.decompile(data, a.font)
+        back.table.ensureDecompiled(recurse=True)
+        again = type(back).compile(back, a.font)
+        return data, back, again
+
+    ensures = [
+        prop("decompile-of-compile-is-the-same-object-model", lambda a, old, r: And(*_deep_eq(r[1].table, a.self.table))),
+        prop("second-generation-bytes-identical", lambda a, old, r: SymBytes.of(r[0]) == SymBytes.of(r[2])),
     ]
